@@ -1,5 +1,6 @@
 import TsVerif.C01.LR
-/-! Helper lemmas for the LR machine: the frame property and independence of unread input. -/
+/-! Helper lemmas for the LR machine: the frame property, independence of unread input,
+composition of runs. -/
 namespace TsVerif.C01.LR
 open TsVerif.C01
 
@@ -7,7 +8,29 @@ theorem top_append (bottom : Nat) (rel base : Stack) :
     top bottom (rel ++ base) = top (top bottom base) rel := by
   cases rel with
   | nil => rfl
-  | cons p r => obtain ⟨s, t⟩ := p; rfl
+  | cons p r => rfl
+
+theorem popN_append : ∀ (rel : Stack) (n : Nat) (base : Stack) (p : List Entry) (r : Stack),
+    popN rel n = some (p, r) → popN (rel ++ base) n = some (p, r ++ base)
+  | rel, 0, base, p, r, h => by
+    cases rel <;> simp only [popN, Option.some.injEq, Prod.mk.injEq] at h <;>
+      (obtain ⟨h1, h2⟩ := h; subst h1 h2)
+    · cases base <;> simp [popN]
+    · simp [popN]
+  | [], n + 1, base, p, r, h => by simp [popN] at h
+  | e :: rel, n + 1, base, p, r, h => by
+    simp only [popN, List.cons_append] at h ⊢
+    split at h
+    · rename_i p1 r1 h1
+      simp only [Option.some.injEq, Prod.mk.injEq] at h
+      obtain ⟨hp, hr⟩ := h
+      subst hp hr
+      rw [popN_append rel _ base p1 r1 h1]
+    · contradiction
+
+theorem pushReduced_append (T : Table) (bottom : Nat) (A : Nat) (p : List Entry) (r base : Stack) :
+    pushReduced T bottom A p (r ++ base) = pushReduced T (top bottom base) A p r ++ base := by
+  simp [pushReduced, top_append]
 
 /-- A step that succeeds above a frame is the same step on the whole stack. -/
 theorem step_frame (T : Table) (bottom : Nat) (rel base : Stack) (inp : List Tok) (rel' : Stack) (inp' : List Tok)
@@ -24,16 +47,17 @@ theorem step_frame (T : Table) (bottom : Nat) (rel base : Stack) (inp : List Tok
       obtain ⟨h1, h2⟩ := h
       subst h1 h2
       simp
+    · simp only [Option.some.injEq, Prod.mk.injEq] at h
+      obtain ⟨h1, h2⟩ := h
+      subst h1 h2
+      simp
     · rename_i A n hact
       split at h
-      · rename_i hn
+      · rename_i p r hp
         simp only [Option.some.injEq, Prod.mk.injEq] at h
         obtain ⟨h1, h2⟩ := h
         subst h1 h2
-        have hlen : n ≤ (rel ++ base).length := by simp; omega
-        simp only [hlen, if_true, Option.some.injEq, Prod.mk.injEq, and_true]
-        rw [List.drop_append_of_le_length hn, List.take_append_of_le_length hn, top_append]
-        simp
+        simp only [popN_append rel n base p r hp, pushReduced_append]
       · contradiction
     · contradiction
     · contradiction
@@ -63,18 +87,20 @@ theorem step_append (T : Table) (bottom : Nat) (st : Stack) (inp r : List Tok) (
   | cons x rest =>
     simp only [List.cons_append] at h ⊢
     split at h
-    · rename_i s' hact
-      simp only [Option.some.injEq, Prod.mk.injEq] at h
+    · simp only [Option.some.injEq, Prod.mk.injEq] at h
       obtain ⟨h1, h2⟩ := h
       subst h1 h2
       simp
-    · rename_i A n hact
-      split at h
-      · rename_i hn
+    · simp only [Option.some.injEq, Prod.mk.injEq] at h
+      obtain ⟨h1, h2⟩ := h
+      subst h1 h2
+      simp
+    · split at h
+      · rename_i p r1 hp
         simp only [Option.some.injEq, Prod.mk.injEq] at h
         obtain ⟨h1, h2⟩ := h
         subst h1 h2
-        simp [hn]
+        simp
       · contradiction
     · contradiction
     · contradiction
@@ -91,6 +117,39 @@ theorem steps_append (T : Table) (bottom : Nat) (r : List Tok) :
     · rename_i st1 inp1 hs
       rw [step_append T bottom st inp r st1 inp1 hs]
       exact steps_append T bottom r k st1 inp1 st' inp' h
+    · contradiction
+
+/-- Runs compose. -/
+theorem steps_add (T : Table) (bottom : Nat) (b : Nat) :
+    ∀ (a : Nat) (st : Stack) (inp : List Tok) (st' : Stack) (inp' : List Tok),
+    steps T bottom a st inp = some (st', inp') →
+    steps T bottom (a + b) st inp = steps T bottom b st' inp'
+  | 0, st, inp, st', inp', h => by
+    simp only [steps, Option.some.injEq, Prod.mk.injEq] at h
+    rw [Nat.zero_add, h.1, h.2]
+  | a + 1, st, inp, st', inp', h => by
+    unfold steps at h
+    split at h
+    · rename_i st1 inp1 hs
+      have h1 : steps T bottom (a + 1 + b) st inp = steps T bottom (a + b) st1 inp1 := by
+        rw [show a + 1 + b = (a + b) + 1 by omega]
+        simp [steps, hs]
+      rw [h1]
+      exact steps_add T bottom b a st1 inp1 st' inp' h
+    · contradiction
+
+/-- If `a + b` steps succeed, so do the first `a`. -/
+theorem steps_prefix (T : Table) (bottom : Nat) (b : Nat) :
+    ∀ (a : Nat) (st : Stack) (inp : List Tok) (d : Stack × List Tok),
+    steps T bottom (a + b) st inp = some d → ∃ c, steps T bottom a st inp = some c
+  | 0, st, inp, d, _ => ⟨(st, inp), rfl⟩
+  | a + 1, st, inp, d, h => by
+    rw [show a + 1 + b = (a + b) + 1 by omega] at h
+    unfold steps at h
+    split at h
+    · rename_i st1 inp1 hs
+      obtain ⟨c, hc⟩ := steps_prefix T bottom b a st1 inp1 d h
+      exact ⟨c, by simp [steps, hs, hc]⟩
     · contradiction
 
 /-- `k` successful steps followed by `m` more units of fuel. -/
